@@ -73,6 +73,7 @@ def run(check: Check):
   _flags(check)
   _sqlite(check)
   _pickle(check)
+  _checkpoint_raw(check)
   # npscalar unpack converts back to a scalar
   br = unpacked.get('npscalar')
   if br is not None:
@@ -390,6 +391,27 @@ def _pickle(check: Check, rule_prefix: str = 'R-PAIR'):
            'the unpickled object is returned as it is: a conversion (device_get, np.asarray, tree_map ...) changes leaf types (jax arrays '
            'become numpy arrays, weak types are lost) and a resumed run no longer computes what the uninterrupted run computed',
            node=rets[0] if rets else None)
+
+
+def _checkpoint_raw(check: Check):
+  """load_latest_checkpoint hands back what load_state returned, save_checkpoint hands save_state the state it was given."""
+  repo = check.repo
+  CK = 'fedjax.training.checkpoint'
+  ld, sv = repo.func(CK, 'load_latest_checkpoint'), repo.func(CK, 'save_checkpoint')
+  lf, sf = FuncFlow.of(repo, ld), FuncFlow.of(repo, sv)
+  check.analysed(ld)
+  check.analysed(sv)
+  loads = [c for _, c in lf.calls() if wmean.repo_fn(lf, c) == f'{SER}:load_state']
+  raw = False
+  for _, v in lf.returns():
+    if isinstance(v, ast.Tuple) and len(v.elts) == 2 and loads:
+      raw = any(s is loads[0] for s in lf.expand(v.elts[0]))
+  check.ob('R-PAIR.checkpoint-raw', ld, 'return load_state(path), round', raw and len(loads) == 1,
+           'the restored state is the unpickled object itself: a conversion on the way (device_put, tree_map, asarray) silently changes leaf '
+           'dtypes / types, so it no longer equals the saved state')
+  saves = [c for _, c in sf.calls() if wmean.repo_fn(sf, c) == f'{SER}:save_state']
+  ok_s = len(saves) == 1 and saves[0].args and sf.param_of(saves[0].args[0]) == sv.positional_params[1]
+  check.ob('R-PAIR.checkpoint-raw', sv, 'save_state(state, path)', ok_s, 'the checkpoint holds the state that was passed in, unconverted')
 
 
 def ff_call(ff: FuncFlow, c: ast.Call) -> Optional[str]:
